@@ -192,6 +192,15 @@ class Check:
             self.harness_ok = False
         else:
             self.harness_ok = True
+        # commands of the repository the harness runs as they are shipped (e.g. cmd/mfmt)
+        self.tool_env = {}
+        for tool in self.cfg.get("tools", []):
+            tb = os.path.join(self.work, "tool-" + os.path.basename(tool))
+            rc, out = sh(["go", "build", "-modfile", os.path.join(self.work, "go.mod"), "-o", tb, "./" + tool], cwd=REPO, env=GOENV, timeout=900)
+            if rc != 0:
+                self.broken.append("%s does not build: %s" % (tool, out[-400:]))
+            else:
+                self.tool_env["VERIF_TOOL_" + os.path.basename(tool).upper()] = tb
 
     # ---- phase 3: cases ----
     def make_cases(self, replay=None):
@@ -233,6 +242,7 @@ class Check:
                 env["VERIF_MODEL_BIN"] = self.model_bin
             if self.cfg.get("race"):
                 env["GORACE"] = "halt_on_error=0 log_path=%s" % os.path.join(self.work, "race")
+            env.update(getattr(self, "tool_env", {}))
             remaining = list(self.cases)
             open(ip, "w").close()
             crashes = 0
